@@ -242,6 +242,7 @@ async def _body(run: Run, sdef: dict, ctx: Context, ev: Any) -> Any:
     except Exception as e:  # pragma: no cover
         info["retry_info_error"] = repr(e)
     info["ty"] = ET.TY_ID.get(type(ev), -1)
+    info["stream_len"] = len(run.trace.stream)  # what had been published when the body started (C35: RUNNING comes first)
     run.trace.steps.append(("enter", name, uid, rn, loop.time(), info))
     status = "ok"
     try:
